@@ -475,7 +475,8 @@ func GenTopology(r *rand.Rand, allUp bool) *Topology {
 	n := 2 + r.Intn(4)
 	for i := 0; i < n; i++ {
 		cores := 2 + r.Intn(7)
-		ns := NodeSpec{Name: fmt.Sprintf("n%d", i), Pod: t.Pods[r.Intn(len(t.Pods))], Cores: cores, Memory: int64(1+r.Intn(16)) << 30, Up: true, Labels: map[string]string{}}
+		// names that are prefixes of one another (n1 / n10, n2 / n20): key-prefix mistakes in the stores show up
+		ns := NodeSpec{Name: []string{"n0", "n1", "n10", "n2", "n20"}[i], Pod: t.Pods[r.Intn(len(t.Pods))], Cores: cores, Memory: int64(1+r.Intn(16)) << 30, Up: true, Labels: map[string]string{}}
 		if r.Intn(2) == 0 {
 			ns.Labels["zone"] = []string{"a", "b"}[r.Intn(2)]
 		}
@@ -563,7 +564,7 @@ func GenRes(r *rand.Rand) Res {
 
 // GenCreate draws a create operation on topology t.
 func GenCreate(r *rand.Rand, t *Topology) Op {
-	op := Op{Kind: "create", App: []string{"app", "svc"}[r.Intn(2)], Entry: []string{"web", "job"}[r.Intn(2)], Pod: t.Pods[r.Intn(len(t.Pods))],
+	op := Op{Kind: "create", App: []string{"app", "appx"}[r.Intn(2)], Entry: []string{"web", "web2"}[r.Intn(2)], Pod: t.Pods[r.Intn(len(t.Pods))],
 		Strategy: strategies[r.Intn(len(strategies))], Count: 1 + r.Intn(4), Res: GenRes(r)}
 	switch r.Intn(6) {
 	case 0:
